@@ -2,7 +2,7 @@
 # usage: scripts/mutant_matrix.sh — applies every seeded change to /repo in turn, runs the check of
 # its property (plus listed cross-checks), reverts, and prints a table. Leaves /repo clean.
 cd /verif || exit 2
-declare -A EXTRA=( [C15-m2]="C14" [C07-m2]="C11" [C04-m1]="C03" [C15-m1]="C03" [C01-m3]="C09 C08" [C13-m3]="C11" [C07-m4]="C08" [C14-m3]="C15" )
+declare -A EXTRA=( [C15-m2]="C14" [C07-m2]="C11" [C04-m1]="C03" [C15-m1]="C03" [C01-m3]="C09 C08" [C13-m3]="C11" [C07-m4]="C08" [C14-m3]="C15" [C04-m5]="C15" [C03-m5]="C05 C04" )
 for d in seeded/*/; do
   m=$(basename $d); id=${m%%-*}
   # R-<Cxx>-<commit>: reverse of a repair; X-<Cxx>-…: a sensitivity change of my own
